@@ -99,8 +99,8 @@ const (
 )
 
 type Context struct {
-	PicWidthInLumaSamples  uint32 // sps
-	PicHeightInLumaSamples uint32 // sps
+	PicWidthInLumaSamples  uint32 // sps, 注意，已经减去了conformance window，也即解码输出的宽
+	PicHeightInLumaSamples uint32 // sps, 注意，已经减去了conformance window，也即解码输出的高
 
 	ConfigurationVersion uint8 // const value: 1
 
@@ -553,17 +553,27 @@ func ParseSps(sps []byte, ctx *Context) (err error) {
 		return err
 	}
 	if conformanceWindowFlag != 0 {
-		if _, err = br.ReadGolomb(); err != nil {
-			return err
+		// ISO_IEC_23008-2 7.4.3.2.1: the pictures output by the decoder are cropped to the conformance window,
+		// whose offsets are expressed in units of SubWidthC/SubHeightC (chroma samples)
+		var confWin [4]uint32 // left, right, top, bottom
+		for i := range confWin {
+			if confWin[i], err = br.ReadGolomb(); err != nil {
+				return err
+			}
 		}
-		if _, err = br.ReadGolomb(); err != nil {
-			return err
+		subWidthC, subHeightC := uint32(1), uint32(1)
+		switch ctx.ChromaFormat {
+		case 1: // 4:2:0
+			subWidthC, subHeightC = 2, 2
+		case 2: // 4:2:2
+			subWidthC = 2
 		}
-		if _, err = br.ReadGolomb(); err != nil {
-			return err
-		}
-		if _, err = br.ReadGolomb(); err != nil {
-			return err
+		cropW := uint64(subWidthC) * (uint64(confWin[0]) + uint64(confWin[1]))
+		cropH := uint64(subHeightC) * (uint64(confWin[2]) + uint64(confWin[3]))
+		// 非法的conformance window（比图像还大）则忽略
+		if cropW < uint64(ctx.PicWidthInLumaSamples) && cropH < uint64(ctx.PicHeightInLumaSamples) {
+			ctx.PicWidthInLumaSamples -= uint32(cropW)
+			ctx.PicHeightInLumaSamples -= uint32(cropH)
 		}
 	}
 
